@@ -784,3 +784,54 @@ def rx_map_inserted_on_completion_only(tree, ob):
                             ob.violate(SESS, 'ContactHandler.' + m.name, src(node)[:60], 'an entry of the receive queue is (re-)inserted outside the completion of a transfer: it moves to the end of '
                                        'the queue, recv_bundle_get_queue no longer lists bundles in the order they arrived', node, sure=True)
     ob.require(n >= 1, 'insertions into _rx_map')
+
+
+def log_calls_cannot_raise(tree, ob, rels):
+    """ logging swallows a format error of a log call (wrong number of arguments for the placeholders) -- unless something
+    formats the record eagerly inside the call: a filter that calls record.getMessage() (or `msg % args`) turns such a
+    log line into an exception in the code that logs.  Both sites look fine alone; together a log line behind a completed
+    step (e.g. after the bundle was sent) raises into the failure arm, and a forwarded bundle is reported deleted. """
+    import re as _re
+    from ..core import is_logging_call
+    bad = []
+    n = 0
+    for rel in rels:
+        for (r, qual, func) in tree.all_functions([rel]):
+            for c in calls_in(func):
+                if not is_logging_call(c) or not c.args or any(isinstance(a, ast.Starred) for a in c.args) or c.func.attr == 'log':
+                    continue
+                fmt = c.args[0]
+                if not (isinstance(fmt, ast.Constant) and isinstance(fmt.value, str)):
+                    continue
+                n += 1
+                text = fmt.value.replace('%%', '')
+                if _re.search(r'%\(', text):
+                    continue
+                want = len(_re.findall(r'%[-#0 +]*(?:\*|\d+)?(?:\.(?:\*|\d+))?[a-zA-Z]', text))
+                have = len(c.args) - 1
+                if want != have and not (have == 0):
+                    bad.append((rel, qual, c, want, have))
+    eager = []
+    for (rel, mod) in sorted(tree.modules.items()):
+        for (r, qual, func) in tree.all_functions([rel]):
+            fmts = [c for c in calls_in(func) if isinstance(c.func, ast.Attribute) and c.func.attr == 'getMessage']
+            fmts += [b for b in walk_local(func) if isinstance(b, ast.BinOp) and isinstance(b.op, ast.Mod) and src(b.left).endswith('.msg') and src(b.right).endswith('.args')]
+            if not fmts:
+                continue
+            cls = enclosing(func, (ast.ClassDef,))
+            is_filter = func.name == 'filter' and cls is not None and any('Filter' in src(b) for b in cls.bases)
+            if not is_filter:
+                for (rel2, mod2) in tree.modules.items():
+                    for c2 in ast.walk(mod2.tree):
+                        if isinstance(c2, ast.Call) and isinstance(c2.func, ast.Attribute) and c2.func.attr == 'addFilter' and c2.args and src(c2.args[0]).split('.')[-1] == func.name:
+                            is_filter = True
+            if is_filter:
+                eager.append((rel, qual, fmts[0]))
+    if eager and bad:
+        for (rel, qual, c, want, have) in bad:
+            ob.violate(rel, qual, src(c)[:80], 'this log call has {} placeholder(s) for {} argument(s), and a logging filter of the repository ({} in {}) formats every record eagerly: the call '
+                       'raises instead of logging, whatever step it stands behind is taken for failed (a bundle already sent is recorded and reported as deleted)'.format(want, have, eager[0][1], eager[0][0]), c, sure=True)
+    else:
+        for (rel, qual, c, want, have) in bad:
+            ob.undetermined.append('src/{}:{} {}: log call with {} placeholder(s) for {} argument(s) (swallowed by logging while nothing formats records eagerly)'.format(rel, c.lineno, qual, want, have))
+        ob.site(rels[0], tree.module(rels[0]).tree, '{} log calls examined, {} with a placeholder / argument mismatch, {} eager record formatter(s) installed'.format(n, len(bad), len(eager)))
